@@ -15,6 +15,7 @@ from .specfns import SPEC
 
 TIMEOUT_MS = int(os.environ.get("PYVC_TIMEOUT_MS", "8000"))
 MAX_EXTERNAL = 4
+MAX_FULL = 8       # obligations per function (case) that get the full third pass (retry at 4x budget, model search, second solvers)
 
 
 def build_ctx(repo=None, consts=None):
@@ -133,6 +134,40 @@ def decode(model, heap, v, ctx, seen, depth=0):
     return None
 
 
+class Slot:
+    """machine-wide limit on concurrently running solver calls (one per core): solver budgets are wall-clock, so verdicts must not
+    depend on how many checks happen to run side by side.  Slots are lock files, created on demand."""
+    DIR = os.environ.get("PYVC_SLOT_DIR", "/tmp/pyvc-slots")
+    N = int(os.environ.get("PYVC_SLOTS", str(os.cpu_count() or 8)))
+
+    def __enter__(self):
+        import fcntl
+        os.makedirs(self.DIR, exist_ok=True)
+        start = os.getpid() % self.N
+        while True:
+            for k in range(self.N):
+                path = os.path.join(self.DIR, f"slot{(start + k) % self.N}")
+                try:
+                    fd = os.open(path, os.O_CREAT | os.O_RDWR, 0o666)
+                except OSError:
+                    continue
+                try:
+                    fcntl.flock(fd, fcntl.LOCK_EX | fcntl.LOCK_NB)
+                    self.fd = fd
+                    return self
+                except OSError:
+                    os.close(fd)
+            time.sleep(0.02)
+
+    def __exit__(self, *a):
+        import fcntl
+        try:
+            fcntl.flock(self.fd, fcntl.LOCK_UN)
+        finally:
+            os.close(self.fd)
+        return False
+
+
 def solve(ob, want_model=None, timeout_ms=None, relax=False):
     """relax=True (model search only): quantified assumptions are dropped; any model found is only a *candidate*
     input that must be confirmed by replay on the real code"""
@@ -151,11 +186,14 @@ def solve(ob, want_model=None, timeout_ms=None, relax=False):
             s2.set("timeout", min(2000, timeout_ms or TIMEOUT_MS))
             s2.add(*light)
             s2.add(z3.Not(ob.goal))
-            if s2.check() == z3.unsat:
+            with Slot():
+                r2 = s2.check()
+            if r2 == z3.unsat:
                 return "unsat", time.time() - t0, None, "z3"
         s.add(*ob.assumptions)
     s.add(z3.Not(ob.goal))
-    r = s.check()
+    with Slot():
+        r = s.check()
     if r == z3.unknown and not relax and timeout_ms is None and _retry_budget[0] > 0:
         _retry_budget[0] -= 1
         # a timeout under load must not flip a verdict: one retry with four times the budget on a fresh solver
@@ -164,7 +202,8 @@ def solve(ob, want_model=None, timeout_ms=None, relax=False):
         s.set("random_seed", 7)
         s.add(*ob.assumptions)
         s.add(z3.Not(ob.goal))
-        r = s.check()
+        with Slot():
+            r = s.check()
     model = None
     if r == z3.sat and want_model:
         try:
@@ -200,7 +239,9 @@ def presolve(obls, threads=None, timeout_s=None, only=None):
     def run(i):
         t0 = time.time()
         try:
-            r = subprocess.run([exe, "-in", f"-T:{timeout_s}"], input=texts[i], capture_output=True, text=True, timeout=timeout_s + 10)
+            with Slot():
+                t0 = time.time()
+                r = subprocess.run([exe, "-in", f"-T:{timeout_s}"], input=texts[i], capture_output=True, text=True, timeout=timeout_s + 10)
             ans = (r.stdout.strip().splitlines() or ["unknown"])[0].strip()
         except Exception:
             ans = "unknown"
@@ -230,7 +271,8 @@ def external(ob, timeout=12):
     try:
         for name, cmd in (("cvc5", ["/usr/bin/cvc5", "--tlimit=%d" % (timeout * 1000), p]), ("z3-4.8", ["/usr/bin/z3", "-T:%d" % timeout, p])):
             try:
-                r = subprocess.run(cmd, capture_output=True, text=True, timeout=timeout + 5)
+                with Slot():
+                    r = subprocess.run(cmd, capture_output=True, text=True, timeout=timeout + 5)
                 ans = (r.stdout.strip().splitlines() or ["unknown"])[0].strip()
             except Exception:
                 ans = "unknown"
@@ -431,19 +473,28 @@ def _verify(qual, repo, ctx, bound, second_solver, fast, case):
                 ob.assumptions = list(ob.assumptions) + tdiv_ax
         # pass 1: every obligation with a short budget in-process; pass 2: what is left, in parallel through the z3 CLI with the
         # full budget; pass 3 (below): what is still left, in-process with retry, model extraction and the second solvers
-        quick, pre = {}, {}
+        quick, pre, pre_tried = {}, {}, set()
         if not fast and not os.environ.get("PYVC_NO_PRESOLVE"):
             for oi, ob in enumerate(X.obls):
                 r1 = solve(ob, None, 1200, relax=False)
                 if r1[0] == "unsat":
                     quick[oi] = r1
-            pre = presolve(X.obls, only={oi for oi in range(len(X.obls)) if oi not in quick})
+            pre_tried = {oi for oi in range(len(X.obls)) if oi not in quick}
+            pre = presolve(X.obls, only=pre_tried)
+            if len(pre_tried) < 4:
+                pre_tried = set()
+        n_full = 0
+        tried_cli = bool(quick or pre) or (not fast and not os.environ.get("PYVC_NO_PRESOLVE"))
         for oi, ob in enumerate(X.obls):
             if oi in quick:
                 res, dt, model, backend = quick[oi]
             elif oi in pre:
                 res, dt, model, backend = "unsat", pre[oi], None, "z3-cli"
+            elif tried_cli and n_full >= MAX_FULL and oi in pre_tried:
+                # many obligations of this function are already undecided after two passes: the rest keep the verdict of pass 2
+                res, dt, model, backend = "unknown", float(TIMEOUT_MS) / 1000, None, "z3-cli"
             else:
+                n_full += 1
                 res, dt, model, backend = solve(ob, mk_decoder(ob), 1500 if fast else None, relax=fast)
             others = []
             if fast:
